@@ -72,6 +72,13 @@ def frame_cases(tier: str, rng: random.Random) -> List[Dict[str, Any]]:
                 tuples = list(itertools.product(range(4), repeat=n))
                 for bells in rng.sample(tuples, min(len(tuples), 8 if tier == "quick" else 32)):
                     out.append(dict(kind="frame", variant=variant, nv=nv, role="recv", expect=True, n=n, bells=list(bells), by=0, earlier_session=True))
+    # the application holds a register of its own across subroutines and updates it in the post routine; a first receive in
+    # a branch that is not taken, before the one that counts
+    for pre, variant in (("held-register", "post_count"), ("skipped-receive", "post_m")):
+        for n in (1, 2, 3):
+            tuples = list(itertools.product(range(4), repeat=n))
+            for bells in rng.sample(tuples, min(len(tuples), 8 if tier == "quick" else 40)):
+                out.append(dict(kind="frame", variant=variant, nv=False, role="recv", expect=True, n=n, bells=list(bells), by=0, pre=pre))
     # two applications on one controller, interleaved at every wait (and, as a control, one after the other)
     for variant in ("keep", "post_h"):
         for m in (1, 2):
@@ -174,6 +181,16 @@ def _run_frame(item):
         bys = [Qubit(conn) for _ in range(c["by"])]
         if bys:
             conn.flush()
+        held = skipped = None
+        if c.get("pre") == "held-register":
+            # the application keeps a classical register of its own across subroutines (a counter it updates on the controller)
+            held = conn.builder.new_register()
+            conn.flush()
+        elif c.get("pre") == "skipped-receive":
+            # an outcome known from an earlier subroutine (0) guards a first receive that is therefore never executed
+            b0 = Qubit(conn)
+            skipped = b0.measure()
+            conn.flush()
         mark = len(ex.gate_log)
         um = ex._qubit_unit_modules.get(conn.app_id, [])
         row["bystanders"] = sorted(p for p in um if p is not None)
@@ -185,8 +202,16 @@ def _run_frame(item):
         def post_h(conn_, q, pair):
             q.H()
 
+        def post_count(conn_, q, pair):
+            # counts the pairs on the controller, in the register the application holds; the qubit is left alone
+            held.add(1)
+
         def post_m(conn_, q, pair):
             q.measure()
+
+        if skipped is not None:
+            with skipped.if_eq(1):
+                sock.recv_keep(1, **({"post_routine": post_m} if variant == "post_m" else {}))
 
         def post_ff(conn_, q, pair):
             # classical feed-forward: a temporary register holds the outcome while the body runs
@@ -210,6 +235,8 @@ def _run_frame(item):
             (sock.recv_keep_with_info if recv else sock.create_keep_with_info)(n, **ek)
         elif variant == "post_h":
             (sock.recv_keep if recv else sock.create_keep)(n, post_routine=post_h, **ek)
+        elif variant == "post_count":
+            (sock.recv_keep if recv else sock.create_keep)(n, post_routine=post_count, **ek)
         elif variant == "post_m":
             (sock.recv_keep if recv else sock.create_keep)(n, post_routine=post_m, **ek)
         elif variant == "seq":
@@ -583,7 +610,7 @@ def run(prop: str, tier: str) -> int:
 
 
 def _setting(r):
-    return "two-applications" if r.get("apps") == 2 else "after-an-earlier-session" if r.get("earlier_session") else ""
+    return "two-applications" if r.get("apps") == 2 else "after-an-earlier-session" if r.get("earlier_session") else r.get("pre", "")
 
 
 def _hw(r):
@@ -608,7 +635,7 @@ def _dispatch(item):
 
 
 def replay_case(prop, case, tmp):
-    keep = ("kind", "variant", "nv", "role", "expect", "n", "bells", "by", "api", "bell", "basis", "early", "tries", "earlier_session", "apps", "first", "interleave")
+    keep = ("kind", "variant", "nv", "role", "expect", "n", "bells", "by", "api", "bell", "basis", "early", "tries", "earlier_session", "apps", "first", "interleave", "pre")
     row = _dispatch((1, {k: case[k] for k in keep if k in case}))
     res = C.run_tlc_sharded("BellFrame", [row], tmp, shards=1, cfg="BellFrame.cfg")
     return res.verdicts[0][1] if res.verdicts else None
